@@ -208,7 +208,7 @@ impl Mac {
     pub(crate) fn add_uplink<M: SerializableMacCommand>(&mut self, cmd: M) -> Result<()> {
         let _fcnt = match &mut self.state {
             State::Joined(session) => {
-                session.uplink.add_mac_command(cmd);
+                let _ = session.uplink.add_mac_command(cmd);
                 Ok(())
             }
             State::Otaa(_) => Err(Error::NotJoined),
